@@ -182,6 +182,11 @@ def configs(tier):
     gr(2, 2, (1, 2))
     wc(2, 1, (2, 1), container='ndarray')
     wc(1, 1, (1, 1, 1), resubmit=True)
+    wc(1, 1, (8,))              # size thresholds: larger batches (the evaluator's work list grows with batch size * (2n+1))
+    wc(2, 1, (6, 2))
+    wc(3, 2, (4,))
+    gr(1, 1, (8,))
+    gr(2, 1, (6,))
     wc(5, 1, (1, 1))            # size thresholds: more parameters (10 neighbours per design)
     wc(7, 2, (1,))
     gr(5, 1, (1, 1))
